@@ -150,17 +150,27 @@ class MessageSigner(object):
 
         # Calculate the specific public key used to sign this message.
         y_parity = recid & 1
-        pairs = self._generator.possible_public_pairs_for_signature(
-            msg_hash, (r, s), y_parity=y_parity
-        )
+        if recid > 1:
+            # the nonce point has x coordinate r + order (which must be less than p), not r
+            generator = self._generator
+            x = r + generator.order()
+            if x >= generator.p():
+                raise EncodingError("r + order is not an x coordinate")
+            try:
+                nonce_point = generator.points_for_x(x)[y_parity]
+            except ValueError:
+                raise EncodingError("no curve point for r + order")
+            inv_r = generator.inverse(r)
+            pairs = [(s * inv_r) * nonce_point + (-(inv_r * msg_hash)) * generator]
+        else:
+            pairs = self._generator.possible_public_pairs_for_signature(
+                msg_hash, (r, s), y_parity=y_parity
+            )
         if not pairs:
             raise EncodingError("no curve point for r")
         q = pairs[0]
         if q == self._generator.infinity():
             raise EncodingError("signature yields the point at infinity")
-        if recid > 1:
-            order = self._generator.order()
-            q = self._generator.Point(q[0] + order, q[1])
         return q, is_compressed
 
     def pair_matches_key(self, pair: Any, key: Any, is_compressed: bool) -> bool:
